@@ -482,6 +482,11 @@ func (r *runtimeState) timerEventsLocked() []*Timer {
 		if t.stopped || (t.fired && !t.ticker) {
 			continue
 		}
+		// a tick that finds the ticker's channel full is dropped (as by the Go runtime) and changes nothing: it is
+		// not offered, so that a system in which only such ticks remain is recognised as deadlocked
+		if st := r.stateOfLocked(t.C); t.ticker && len(st.buf) >= st.cap {
+			continue
+		}
 		res = append(res, t)
 	}
 	return res
